@@ -1,9 +1,10 @@
-\* thorough: seeded sample of programs of nesting depth exactly 4 (-simulate)
+\* thorough: seeded sample of programs of nesting depth 3 or 4 (any outermost context) (-simulate)
 SPECIFICATION SpecSim
 CONSTANTS
   Depth = 4
-  MinDepth = 4
+  MinDepth = 3
   SynDepth = 2
+  Outer3 <- Contexts
   MaxIn = 4
 INVARIANTS TypeOK CleanupOnce HandlerFirstMatch NoneLost EscapeIntact FinalOK RejectedNeverRuns
 CHECK_DEADLOCK FALSE
